@@ -146,3 +146,23 @@ func okReply(op *rm.Op, serial uint32) []byte {
 	msg[4], msg[5], msg[6], msg[7] = byte(serial), byte(serial>>8), byte(serial>>16), byte(serial>>24)
 	return msg
 }
+
+// validReply builds a well-formed reply that op(serial, a) must accept without error.
+func validReply(r gen.R, op *rm.Op, serial uint32, a rm.Vals) []byte {
+	if op.NoReply {
+		return nil
+	}
+	msg := r.Reply(op, 0x17, serial, a, true)
+	l := op.ReplyLayout()
+	switch op.Name {
+	case "GetCardByID":
+		rm.EncodeField(msg, *l.Field("CardNumber"), rm.UVal(rm.U32, a["CardNumber"].U))
+	case "GetTimeProfile":
+		rm.EncodeField(msg, *l.Field("ProfileID"), rm.UVal(rm.U8, a["ProfileID"].U))
+	case "GetEvent":
+		if msg[l.Field("Type").Offset] == 0xff {
+			msg[l.Field("Type").Offset] = 1
+		}
+	}
+	return msg
+}
